@@ -408,6 +408,82 @@ pub fn generate(ctx: &mut Ctx) {
             ctx.case(&format!("into-prefix {} {}", lo, hi));
         }
     }
+    // generated text forms: addresses written the canonical way and in every other way the parsers accept or
+    // must refuse (upper case, leading zeros, full form, IPv4 tails, several `::`, too many groups, signs, spacing)
+    {
+        let v4_addr = |rng: &mut Rng| -> String {
+            let a = match rng.below(5) { 0 => 0u32, 1 => u32::MAX, 2 => (rng.below(256) as u32) << 24, _ => rng.next() as u32 };
+            let o = a.to_be_bytes();
+            match rng.below(14) {
+                0 => format!("0{}.{}.{}.{}", o[0], o[1], o[2], o[3]),
+                1 => format!("{}.{}.{}", o[0], o[1], o[2]),
+                2 => format!("{}.{}.{}.{}.{}", o[0], o[1], o[2], o[3], o[0]),
+                3 => format!("{}.{}.{}.{}", o[0], o[1], 256 + o[2] as u32, o[3]),
+                4 => format!("{}.{}..{}", o[0], o[1], o[3]),
+                5 => format!("{}.{}.{}.{} ", o[0], o[1], o[2], o[3]),
+                6 => format!("{}.{}.{}.+{}", o[0], o[1], o[2], o[3]),
+                _ => std::net::Ipv4Addr::from(a).to_string(),
+            }
+        };
+        let v6_addr = |rng: &mut Rng| -> String {
+            let mut g = [0u16; 8];
+            for x in g.iter_mut() { *x = match rng.below(4) { 0 | 1 => 0, 2 => rng.below(16) as u16, _ => rng.next() as u16 }; }
+            if rng.chance(1, 10) { g = [0, 0, 0, 0, 0, 0xffff, rng.next() as u16, rng.next() as u16]; }
+            let a = std::net::Ipv6Addr::from(g);
+            let full = |up: bool, pad: bool| g.iter().map(|x| match (up, pad) { (false, false) => format!("{:x}", x), (true, false) => format!("{:X}", x),
+                (false, true) => format!("{:04x}", x), (true, true) => format!("{:04X}", x) }).collect::<Vec<_>>().join(":");
+            match rng.below(20) {
+                0 => full(false, false), 1 => full(true, false), 2 => full(false, true), 3 => full(true, true),
+                4 => format!("{}:{}.{}.{}.{}", g[..6].iter().map(|x| format!("{:x}", x)).collect::<Vec<_>>().join(":"), g[6] >> 8, g[6] & 255, g[7] >> 8, g[7] & 255),
+                5 => format!("::{}.{}.{}.{}", g[6] >> 8, g[6] & 255, g[7] >> 8, g[7] & 255),
+                6 => format!("{}::", full(false, false)),
+                7 => format!("{:x}::{:x}::{:x}", g[0], g[1], g[2]),
+                8 => format!("{}:{:x}", full(false, false), g[0]),
+                9 => format!("{:x}:::{:x}", g[0], g[7]),
+                10 => format!("1{:04x}::", g[0]),
+                11 => format!(":{:x}", g[7]),
+                12 => format!("{:x}:", g[0]),
+                13 => format!("{:x}::{:x}", g[0], g[7]),
+                14 => format!("::{:x}:{:x}", g[6], g[7]),
+                15 => format!("{}.{}.{}.{}::", g[0] >> 8, g[0] & 255, g[1] >> 8, g[1] & 255),
+                _ => a.to_string(),
+            }
+        };
+        let item = |rng: &mut Rng, v4: bool| -> String {
+            let addr = |rng: &mut Rng| if v4 { v4_addr(rng) } else { v6_addr(rng) };
+            let w = if v4 { 32 } else { 128 };
+            match rng.below(6) {
+                0 | 1 => { let l = match rng.below(8) { 0 => "0".to_string(), 1 => w.to_string(), 2 => (w + 1).to_string(), 3 => "+8".into(), 4 => "08".into(), 5 => "".into(), 6 => "256".into(), _ => rng.below(w as u64 + 1).to_string() };
+                           format!("{}/{}", addr(rng), l) }
+                2 | 3 => format!("{}-{}", addr(rng), addr(rng)),
+                _ => addr(rng),
+            }
+        };
+        for _ in 0..(if thorough { 30_000 } else { 3_000 }) {
+            let v4 = rng.bool();
+            let k = match rng.below(5) { 0 => 0, 1 => 1, _ => rng.range(1, 4) };
+            let mut t = String::new();
+            for i in 0..k {
+                if i > 0 { t.push_str(*rng.pick(&[", ", ",", " , ", ",,", ",\t"])); }
+                // now and then an item of the other family
+                let fam4 = if rng.chance(1, 25) { !v4 } else { v4 };
+                t.push_str(&item(&mut rng, fam4));
+            }
+            if rng.chance(1, 10) { t.push(' '); }
+            ctx.case(&format!("ip-parse {} {}", if v4 { 4 } else { 6 }, hex(t.as_bytes())));
+        }
+        for _ in 0..(if thorough { 10_000 } else { 1_500 }) {
+            let one = |rng: &mut Rng| -> String {
+                let n = match rng.below(6) { 0 => 0u64, 1 => u32::MAX as u64, 2 => u32::MAX as u64 + 1, 3 => rng.below(70000), _ => rng.below(1 << 32) };
+                let pre = *rng.pick(&["AS", "AS", "as", "As", "", "A", "ASN", "+", "AS+"]);
+                match rng.below(8) { 0 => format!("{}{}-{}{}", pre, n, pre, n + rng.below(1000)), 1 => format!("{}{}-", pre, n), 2 => format!("-{}{}", pre, n),
+                    3 => format!("{}{}-{}{}", pre, n, pre, n.saturating_sub(rng.below(3))), 4 => format!("{}0{}", pre, n), 5 => format!("{}{} ", pre, n), _ => format!("{}{}", pre, n) }
+            };
+            let k = match rng.below(5) { 0 => 0, 1 => 1, _ => rng.range(1, 5) };
+            let t = (0..k).map(|_| one(&mut rng)).collect::<Vec<_>>().join(*rng.pick(&[", ", ",", " , ", ",,"]));
+            ctx.case(&format!("as-parse {}", hex(t.as_bytes())));
+        }
+    }
     // text forms offered to the parsers (inverted ranges, duplicates, spacing, mixed families)
     for t in ["AS1", "AS1-AS3", "AS5-AS3", "AS3-AS3", "AS0-AS4294967295", "AS1, AS3-AS4,AS2", "as1-as2", "1-2", "AS1-", "-AS1", "AS4294967296", "", " ", "AS1,,AS2", "AS10-AS20, AS30-AS40, AS15-AS35"] {
         ctx.case(&format!("as-parse {}", hex(t.as_bytes())));
